@@ -432,6 +432,19 @@ pub fn run(tier: Tier, seed: u64) -> i32 {
                                 }
                                 let may = amount == 1 && *delegate_may_pass;
                                 variants.push((format!("d:delegate_amount_{amount}"), bk.clone(), with_signer(&g.ix, a.slot, bs.delegate), may || amount == 1));
+                                // (d') ... who is also the account's CLOSE authority: closing instructions are then no longer
+                                //      stopped by the token program's own close check, only by the program's authority rule
+                                {
+                                    let set = if ta.owner == TOKEN {
+                                        spl_token::instruction::set_authority(&TOKEN, &tok, Some(&bs.delegate), spl_token::instruction::AuthorityType::CloseAccount, &key, &[]).unwrap()
+                                    } else {
+                                        spl_token_2022::instruction::set_authority(&TOKEN22, &tok, Some(&bs.delegate), spl_token_2022::instruction::AuthorityType::CloseAccount, &key, &[]).unwrap()
+                                    };
+                                    let mut bk2 = bk.clone();
+                                    if bs.w.svm.process(&mut bk2, &set, &[key]).ok() {
+                                        variants.push((format!("d':delegate_amount_{amount}_with_close_authority"), bk2, with_signer(&g.ix, a.slot, bs.delegate), may));
+                                    }
+                                }
                                 if amount == 1 {
                                     // (g) delegate's key in the slot, but only the owner signs
                                     let mut i = with_signer(&g.ix, a.slot, bs.delegate);
